@@ -90,11 +90,15 @@ def cases(tier, seed):
     for struct, sparse, num, mscale in itertools.product(['plate', 'cpanel', 'plate_reduced', 'assembly', 'bay'], [1, 0], [2, 5], [1.0, 1.0e-9]):
         out.append(dict(kind='struct', struct=struct, sparse=sparse, num=num, mscale=mscale, seed=seed))
     # Panel.freq (second implementation): full product of its own switches
-    for model, geom, atype, sort, red, sparse, num in itertools.product(['plate', 'cpanel'], ['regular', 'near_square'], [4, 3], [1, 0], [0, 1],
+    for model, geom, atype, sort, red, sparse, num in itertools.product(['plate', 'cpanel'], ['regular', 'near_square', 'square'], [4, 3], [1, 0], [0, 1],
                                                                           [1, 0], [2, 6]):
         if red and sparse:
             continue                      # documented: only effective with the dense solver
         out.append(dict(kind='pfreq', model=model, geom=geom, atype=atype, sort=sort, reduced=red, sparse=sparse, num=num, seed=seed))
+        if geom == 'regular' and sort and not red:
+            # the same Panel object analysed first under another definition (density / edge restraints / thickness)
+            for redef in ('mu', 'flags', 'plyt'):
+                out.append(dict(kind='pfreq', model=model, geom=geom, atype=atype, sort=sort, reduced=red, sparse=sparse, num=num, redef=redef, seed=seed))
     return out
 
 
@@ -235,22 +239,38 @@ def check_pfreq(case):
     (1,2)/(2,1) frequencies differ by a few hundredths of a rad/s."""
     from scipy.linalg import eigh
     fails = []
-    if case['geom'] == 'near_square':
-        cfg = dict(model=case['model'], a=0.5, b=0.50002, r=1.5, lam='iso', m=6, n=6, fbase='SSSS', seed=case['seed'])
+    if case['geom'] in ('near_square', 'square'):
+        # 'square': exactly repeated frequencies (the general eigen-solvers return them as conjugate pairs w +- 1e-11j)
+        cfg = dict(model=case['model'], a=0.5, b=0.50002 if case['geom'] == 'near_square' else 0.5, r=1.5, lam='iso', m=6, n=6, fbase='SSSS',
+                   seed=case['seed'])
     else:
         cfg = dict(model=case['model'], a=0.6, b=0.4, r=1.5, lam='cross_sym', m=6, n=5, fbase='SSSS', seed=case['seed'])
     p = pan.make_panel(cfg)
     p.num_eigvalues = case['num']
-    Kd, Md = pan.dense(p.calc_k0(silent=True)), pan.dense(p.calc_kM(silent=True))
+    if case.get('redef'):
+        mu0 = p.mu
+        if case['redef'] == 'mu':
+            p.mu = 4.0 * mu0
+        elif case['redef'] == 'flags':
+            p.w1rx = p.w2rx = 0.0
+        else:
+            p.plyt = 2.0 * p.plyt
+        p.freq(atype=4, silent=True, sparse_solver=bool(case['sparse']))
+        p2 = pan.make_panel(cfg)
+        p.mu, p.w1rx, p.w2rx, p.plyt = p2.mu, p2.w1rx, p2.w2rx, p2.plyt
+    # reference matrices from a freshly defined panel (the re-used object is only asked for its frequency analysis)
+    pr = pan.make_panel(cfg) if case.get('redef') else p
+    Kd, Md = pan.dense(pr.calc_k0(silent=True)), pan.dense(pr.calc_kM(silent=True))
     if case['atype'] == 3:
         # 40% of the critical load of the pattern (Nxx, Nyy) = (-1, 0.25)
-        p.Nxx, p.Nyy = -1.0, 0.25
-        G = pan.dense(p.calc_kG0(silent=True))
+        pr.Nxx, pr.Nyy = -1.0, 0.25
+        G = pan.dense(pr.calc_kG0(silent=True))
         a0 = np.where(np.abs(Kd).sum(axis=0) != 0)[0]
         mu = eigh(-G[np.ix_(a0, a0)], Kd[np.ix_(a0, a0)], eigvals_only=True)
         lcr = 1.0 / mu.max()
+        pr.Nxx, pr.Nyy = -0.4 * lcr, 0.1 * lcr
         p.Nxx, p.Nyy = -0.4 * lcr, 0.1 * lcr
-        Kd = Kd + pan.dense(p.calc_kG0(silent=True))
+        Kd = Kd + pan.dense(pr.calc_kG0(silent=True))
     act = np.where(np.abs(Md).sum(axis=0) != 0)[0]
     if case['reduced']:
         act = np.array([i for i in act if i % 3 != 0])
